@@ -684,6 +684,13 @@ class Evaluator:
                 return Unknown(f'call of external {k}')
         if any(isinstance(a, Unknown) for a in args) and fn in (dict, list, tuple, set, frozenset, sorted, len):
             return Unknown('builtin on unknown')
+        if fn is isinstance and len(args) == 2 and not kwargs:
+            # a plain Python constant against builtin type(s): `isinstance(value, int)`, `isinstance(value, (bool, str))`
+            tys = args[1] if isinstance(args[1], tuple) else (args[1],)
+            if isinstance(args[0], (bool, int, float, complex, str, bytes, tuple, type(None))) and \
+                    all(t in (bool, int, float, complex, str, bytes, tuple, list, dict, set, frozenset, type(None)) for t in tys):
+                return isinstance(args[0], tys)
+            return Unknown('isinstance')
         if fn is isinstance or fn is issubclass:
             return Unknown('isinstance')
         if callable(fn):
